@@ -131,21 +131,44 @@ func clusteredHistories(c *ctx) string {
 			}
 		}
 		var trail []string
+		// every search without an exclusion bitmap goes through ONE handle kept open for the whole
+		// history (a searcher keeps its handle across queries)
+		var shared segment.VectorIndex
+		if oi%2 == 0 {
+			shared, err = seg.(segment.VectorSegment).InterpretVectorIndex("vec", true, nil)
+			if err != nil {
+				seg.Close()
+				return "InterpretVectorIndex error: " + err.Error()
+			}
+		}
+		runOne := func(i int) ([]vhit, string) {
+			s := searches[i]
+			if shared != nil && s.except == nil {
+				return searchHandle(shared, s.q, s.k, s.eligible, s.filtered)
+			}
+			return run(seg, s)
+		}
 		for _, i := range perm {
 			if oi > 2 && c.R.Chance(4) {
 				zap.VerifVectorCacheTick(&seg.(*zap.Segment).SegmentBase)
 				trail = append(trail, "expiry-pass")
 			}
-			hits, bad := run(seg, searches[i])
+			hits, bad := runOne(i)
 			trail = append(trail, fmt.Sprintf("#%d(%s)", i, searches[i]))
 			if bad == "" && hitKey(hits) != ref[i] {
 				bad = fmt.Sprintf("the search returns %d pairs that differ from the %s the same search returns on a freshly opened copy of the file", len(hits), "answer")
 			}
 			if bad != "" {
+				if shared != nil {
+					shared.Close()
+				}
 				seg.Close()
-				return fmt.Sprintf("segment with %d vectors (clustered index), searches in this order on one opened segment:\n  %s\nlast one: %s", nd, fmt.Sprint(trail), bad)
+				return fmt.Sprintf("segment with %d vectors (clustered index), searches in this order on one opened segment (those without an exclusion bitmap through one handle kept open: %v):\n  %s\nlast one: %s", nd, shared != nil, fmt.Sprint(trail), bad)
 			}
 			c.Count("clustered_history_searches")
+		}
+		if shared != nil {
+			shared.Close()
 		}
 		seg.Close()
 		c.Case(fmt.Sprintf("clustered-order-%d", oi), true)
